@@ -22,7 +22,8 @@ Ext(c, j, full) ==
       spans == {sp(i) : i \in DOMAIN e.kids} \ {Unset}
   IN IF spans = {} THEN Unset ELSE <<Min({x[1] : x \in spans}), Max({x[2] : x \in spans})>>
 Creates(c, j) ==
-  LET e == c.reds[j] IN c.pp /\ IsTree(e.res) /\ e.rid \notin {e.kid[i] : i \in DOMAIN e.kid} /\ ~c.rules[e.r].helper /\ Ext(c, j, TRUE) # Unset
+  \* e.pt: the result IS one of the children given, or a grandchild spliced in from an inlined child (a ?rule passing it through)
+  LET e == c.reds[j] IN c.pp /\ IsTree(e.res) /\ ~e.pt /\ ~c.rules[e.r].helper /\ Ext(c, j, TRUE) # Unset
 SpanLaw(c, j) == Creates(c, j) => c.reds[j].res[4] = Ext(c, j, TRUE)
 \* known finding C06-token-through-expand1: the node is exact except for what ?rules matched around tokens they returned
 SpanLawButTokens(c, j) == Creates(c, j) => c.reds[j].res[4] = Ext(c, j, FALSE)
